@@ -256,6 +256,7 @@ type Rules struct {
 	MatcherNeedsLabel  bool // a matcher only ever matches streams that carry the label (index rows exist only for present labels)
 	JSONLastSegment    bool // json p="a.b": the type test uses the full path, the extraction only the last segment
 	JSONIndexAsKey     bool // json p="a[0]": the index is looked up as the object key "1"
+	LaterDropVisible   bool // a label filter after the first parser sees the labels with the LATER drop stages (up to the next parser) already applied
 	HoistedLabelFilter bool // a label filter placed before the first parser stage is evaluated on the stored stream labels, ignoring earlier drop stages
 }
 
@@ -273,6 +274,7 @@ func (r Rules) String() string {
 	add(r.JSONLastSegment, "JSONLastSegment")
 	add(r.JSONIndexAsKey, "JSONIndexAsKey")
 	add(r.HoistedLabelFilter, "HoistedLabelFilter")
+	add(r.LaterDropVisible, "LaterDropVisible")
 	return strings.Join(s, "+")
 }
 
@@ -668,6 +670,25 @@ func (o *oracle) Eval(db *Database, qu *Query, p Params) ([]Row, error) {
 			case "label":
 				if o.rules.HoistedLabelFilter && i < firstParser {
 					pass, err = o.evalTree(s.Tree, st.Labels)
+				} else if o.rules.LaterDropVisible && i > firstParser {
+					view := make(map[string]string, len(labels))
+					for k, v := range labels {
+						view[k] = v
+					}
+					for j := i + 1; j < len(qu.Stages); j++ {
+						sj := &qu.Stages[j]
+						if sj.Kind == "json" || sj.Kind == "regexp" {
+							break
+						}
+						if sj.Kind == "drop" {
+							for _, d := range sj.Drops {
+								if d.Val == nil || view[d.Label] == *d.Val {
+									delete(view, d.Label)
+								}
+							}
+						}
+					}
+					pass, err = o.evalTree(s.Tree, view)
 				} else {
 					pass, err = o.evalTree(s.Tree, labels)
 				}
